@@ -3,7 +3,7 @@
    All theorems quantify over every geometry, every number of threads, every program and
    EVERY schedule (list of Run tid | Tick dt) of the program-counter machine in
    Model/LeapArrayConc.v, whose steps are the atomic accesses of the Go code. *)
-From SG Require Import Base.Prelude Base.GoInt Model.LeapArrayConc Proofs.LeapArrayConcProofs Proofs.LeapArrayConcSafetyProofs.
+From SG Require Import Base.Prelude Base.GoInt Model.LeapArrayConc Proofs.LeapArrayConcProofs Proofs.LeapArrayConcSafetyProofs Proofs.LeapArrayConcTermProofs.
 
 (* Every total returned by CountWithTime is at most the sum of the amounts (of that event)
    whose atomic add has executed. Since the statement holds for every schedule it holds in
@@ -109,8 +109,73 @@ Proof.
   split; [vm_compute; discriminate|]. split; vm_compute; reflexivity.
 Qed.
 
+(* ------------------------------------------------------------------------------------------
+   Termination (variant / progress formulation; no fairness assumption is built into the model, the
+   scheduler is arbitrary).  W g c (Proofs/LeapArrayConcTermProofs.v) is a natural number computed
+   from the threads' remaining programs and program counters; W of the initial configuration is
+   prog_cost g progs = sum over all operations of (15 for a record, 17 + 3*sampleCount for a read).
+   In every reachable configuration c:
+   (1) no step (of any thread, or a tick) increases W;
+   (2) a step of an unfinished thread decreases W, or it is a step inside the spin loop of
+       currentBucketOfTime (pcs 101, 102, the two unlabelled loads, 103) that leaves W and the whole
+       shared state unchanged;
+   (3) a TryLock fails (103 back to 101) only while the lock word is set;
+   (4) while the lock word is set some thread is inside the critical section and its next step decreases W
+       (inside the critical section there is no blocking and no spinning step: by (2) all its steps up to
+       the unlock decrease W).
+   Hence (bounded_work) every schedule contains at most prog_cost steps that are not spin steps, and
+   (no_retry) the only other back edge of the loop, 'start changed between my loads', needs a concurrent
+   BucketStart store, which is one of those boundedly many steps. Under weak fairness every recorder and
+   reader therefore terminates: after the last W-decreasing step nobody is inside the critical section
+   (else (4) and fairness give another one), so no TryLock fails and no start changes, and each thread
+   still in the loop leaves it within 5 of its own steps by a W-decreasing step - unless all are finished. *)
+Theorem C09_termination : forall g t0 progs sched,
+  g_zero_first g = true ->
+  let c := exec g sched (init g t0 progs) in
+  (forall e, (W g (step g c e) <= W g c)%nat) /\
+  (forall tid, unfinished c tid ->
+     let c' := step g c (Run tid) in
+     (W g c' < W g c)%nat \/
+     (W g c' = W g c /\ in_loop (pc_of c tid) = true /\ in_loop (pc_of c' tid) = true /\ sh c' = sh c)) /\
+  (forall tid t, nth_error (thr c) tid = Some t -> t_ops t <> [] -> t_pc t = PTryLock ->
+     pc_of (step g c (Run tid)) tid = PGet -> lock (sh c) = true) /\
+  (lock (sh c) = true ->
+     exists h t, nth_error (thr c) h = Some t /\ t_ops t <> [] /\ in_cs (t_pc t) = true /\ (W g (step g c (Run h)) < W g c)%nat).
+Proof. exact termination_variant. Qed.
+
+Theorem C09_termination_bounded_work : forall g t0 progs sched,
+  g_zero_first g = true ->
+  (useful_steps g sched (init g t0 progs) + W g (exec g sched (init g t0 progs)) <= prog_cost g progs)%nat.
+Proof. exact termination_bounded_work. Qed.
+
+Theorem C09_termination_no_retry : forall g tid s1 s2 s3 t e1 t1 e2 t2 e3 t3,
+  t_ops t <> [] -> t_pc t = PLoad1 ->
+  tstep g tid s1 t = (e1, t1) -> t_pc t1 = PLoad2 ->
+  tstep g tid s2 t1 = (e2, t2) -> t_pc t2 = PLoad3 ->
+  tstep g tid s3 t2 = (e3, t3) ->
+  let S := fun s => s_start (nth (bidx g (t_now t)) (slots s) dslot) in
+  S s2 = S s1 -> S s3 = S s1 -> t_pc t3 <> PGet.
+Proof. exact no_retry_same_start. Qed.
+
+(* non-vacuity: the reader is parked before its TryLock while thread 1 is inside the reset: the reader's
+   step is a spin step (W unchanged, lock set), thread 1's step decreases W; the complete schedule
+   sched_roll brings W from prog_cost = 53 to 0 in 24 W-decreasing steps (37 events). *)
+Definition sched_spin : schedule := rep 4 (Run 0%nat) ++ [Tick 2000] ++ rep 6 (Run 1%nat) ++ rep 4 (Run 2%nat).
+
+Example C09_termination_nonvacuous :
+  let g := g2 true in
+  let c := exec g sched_spin (init g T0 progs3) in
+  pc_of c 2 = PTryLock /\ pc_of (step g c (Run 2%nat)) 2 = PGet /\ lock (sh c) = true /\
+  W g (step g c (Run 2%nat)) = W g c /\ (W g (step g c (Run 1%nat)) < W g c)%nat /\
+  prog_cost g progs3 = 53%nat /\ W g (exec g sched_roll (init g T0 progs3)) = 0%nat /\
+  useful_steps g sched_roll (init g T0 progs3) = 24%nat.
+Proof. cbv zeta. repeat split; vm_compute; reflexivity. Qed.
+
 Print Assumptions C09_no_invention.
 Print Assumptions C09_right_bucket.
 Print Assumptions C09_right_bucket_window.
 Print Assumptions C09_expired_invisible.
 Print Assumptions C09_expired_invisible_refuted_old_order.
+Print Assumptions C09_termination.
+Print Assumptions C09_termination_bounded_work.
+Print Assumptions C09_termination_no_retry.
